@@ -13,7 +13,7 @@ LEVEL_TEXT = ("Static structural proof of necessary conditions: (R15.1) alias-ba
               "(R15.3) in the grouping parser each branch taken on an opening symbol reaches its end only through a test "
               "of the matching closing token whose failing edge raises, and _parse raises when tokens remain. Matching "
               "semantics, the algebraic laws and sibling-order invariance are NOT decided.")
-LEVEL_EXTRA = 'Added after the seeded evaluation: (R15.3) every opening grouping token, including the exact-match form, tests its closing token and raises, and the token fetcher raises past the end; (R15.4) search results are merged and compared by object identity, never by tag equality. Added after the hunting pass: (R15.4) also the groups of two results are compared by identity; (R15.5) every fixed-text alternative of the tokenizer pattern has a kind in the Token table.'
+LEVEL_EXTRA = 'Added after the seeded evaluation: (R15.3) every opening grouping token, including the exact-match form, tests its closing token and raises, and the token fetcher raises past the end; (R15.4) search results are merged and compared by object identity, never by tag equality. Added after the hunting pass: (R15.4) also the groups of two results are compared by identity; (R15.5) every fixed-text alternative of the tokenizer pattern has a kind in the Token table. (R15.6) the element-wise zip comparison of two results is dominated by a length comparison; (R15.7) the tokenizer builds one Token per occurrence.'
 
 ACCESSORS = ["find_tags", "find_wildcard_tags", "find_exact_tags", "find_def_tags", "find_tags_with_term",
              "get_all_tags", "get_all_groups", "tags", "groups", "find_placeholder_tag"]
@@ -203,6 +203,59 @@ def run(ctx):
             ctx.check(g is not None, "R15.3", gnt.qualname, r.ast, loc(gnt, r.ast),
                       "_get_next_token indexes the token list without the end-of-input test and its raise",
                       desc="end-of-input raises the parse error")
+
+    # ---------------- R15.6: an element-wise identity test over zip() is an equality test only with equal lengths
+    ctx.rule("R15.6", "all(... for a, b in zip(X, Y)) in the result comparison is dominated by a length comparison of X and Y that leaves")
+    n_zip = 0
+    for m in mergers:
+        vz = view(ctx, m)
+        for (n_, c) in vz.calls(lambda c: call_name(c) == "all" and c.args and isinstance(c.args[0], ast.GeneratorExp)):
+            gens = c.args[0].generators
+            z = gens[0].iter if gens else None
+            if not (isinstance(z, ast.Call) and call_name(z) == "zip" and len(z.args) == 2):
+                continue
+            n_zip += 1
+            xs = [norm(a) for a in z.args]
+
+            def length_test(t):
+                txt = norm(t)
+                return all("len(%s)" % x in txt for x in xs) and any(isinstance(y, ast.Compare) and isinstance(y.ops[0], (ast.Eq, ast.NotEq))
+                                                                     for y in ast.walk(t))
+            g = vz.guard_for(n_, length_test)
+            ctx.check(g is not None, "R15.6", m.qualname, c, loc(m, c),
+                      "zip stops at the shorter list: without the length comparison a result whose tags are a prefix of another's counts "
+                      "as the same result and is dropped from the merged list", desc="length comparison dominates the element-wise test")
+    ctx.floor("R15.6", "element-wise zip comparisons in the merging functions", n_zip, 1)
+
+    # ---------------- R15.7: one Token object per occurrence (Expression.__init__ edits the text of the token it is given)
+    ctx.rule("R15.7", "the tokenizer builds a fresh Token for every occurrence in the text")
+    edits_token = any(isinstance(a, (ast.Assign, ast.AugAssign)) and any(
+        isinstance(t, ast.Attribute) and isinstance(t.value, ast.Name) and t.value.id == "token"
+        for t in (a.targets if isinstance(a, ast.Assign) else [a.target])) for a in ast.walk(expr.methods["__init__"].node))
+    tkz = qh.methods.get("_tokenize")
+    fresh, other = 0, []
+    for x in ast.walk(tkz.node):
+        if isinstance(x, (ast.ListComp, ast.GeneratorExp)):
+            if isinstance(x.elt, ast.Call) and call_name(x.elt) == "Token":
+                fresh += 1
+            elif any(isinstance(y, ast.Call) and call_name(y) == "Token" for y in ast.walk(x)) or \
+                    any(isinstance(y, ast.Subscript) for y in ast.walk(x.elt)):
+                other.append(x)
+        elif isinstance(x, ast.DictComp) and any(isinstance(y, ast.Call) and call_name(y) == "Token" for y in ast.walk(x)):
+            other.append(x)
+        elif isinstance(x, ast.Call) and call_name(x) == "map" and x.args and norm(x.args[0]) == "Token":
+            fresh += 1
+        elif isinstance(x, ast.Call) and call_name(x) == "append" and x.args and isinstance(x.args[0], ast.Call) \
+                and call_name(x.args[0]) == "Token":
+            fresh += 1
+    for x in other:
+        ctx.check(not edits_token, "R15.7", tkz.qualname, x, loc(tkz, x),
+                  "Token objects are shared between occurrences of the same text, while Expression.__init__ rewrites the text of "
+                  "the token it is given (quotes, trailing *): `\"Red\" && Red` or `Re* && Re*` then search with the rewritten text "
+                  "in the wrong mode", desc="no Token shared between occurrences")
+    ctx.floor("R15.7", "per-occurrence Token constructions in the tokenizer", fresh + len(other), 1)
+    if not other:
+        ctx.ok("R15.7", "%d per-occurrence Token construction(s), none shared (Expression.__init__ edits its token: %s)" % (fresh, edits_token), loc(tkz, tkz.node))
 
 
 def _only_guards_raise(m, cmp):
